@@ -79,6 +79,8 @@ class Batch:
         parse: model output line -> observation comparable with impl_obs;
         oracle: None or list of failure strings (property judged on the implementation)."""
         self.items.append((klass, line, impl_obs, parse, oracle, desc, key))
+        if len(self.items) >= 20000:      # bound the memory of long runs: judge what has been collected so far
+            self.run()
 
     def run(self):
         rep = self.rep
